@@ -635,9 +635,20 @@ impl CodegenContext {
                             let name = extractor.get_string(self, "name")?;
                             let name = self.to_identifier(id.span, name)?;
 
+                            let size = extractor.try_get_i64(self, "size")?;
+                            if matches!(size, Some(size) if size < 0) {
+                                return Err(Diagnostic::error()
+                                    .with_message(format!(
+                                        "the size of bank '{}' should not be negative",
+                                        name
+                                    ))
+                                    .with_labels(vec![id.span.to_label()])
+                                    .into());
+                            }
+
                             let opts = BankOptions {
                                 name: name.clone(),
-                                size: extractor.try_get_i64(self, "size")?.map(|s| s as usize),
+                                size: size.map(|s| s as usize),
                                 fill: extractor.try_get_i64(self, "fill")?.map(|s| s as u8),
                                 create_segment: extractor
                                     .try_get_i64(self, "create-segment")?
@@ -703,6 +714,20 @@ impl CodegenContext {
                             match extractor.try_get_i64(self, "pc")? {
                                 Some(target) => opts.target_address = target.into(),
                                 None => opts.target_address = opts.initial_pc,
+                            }
+                            for (key, address) in
+                                [("start", opts.initial_pc), ("pc", opts.target_address)]
+                            {
+                                // (a negative value has wrapped around to a very large address)
+                                if address.as_usize() > 0xffff {
+                                    return Err(Diagnostic::error()
+                                        .with_message(format!(
+                                            "the '{}' of segment '{}' is outside of the address space",
+                                            key, name
+                                        ))
+                                        .with_labels(vec![id.span.to_label()])
+                                        .into());
+                                }
                             }
 
                             self.segments.insert(name.clone(), Segment::new(opts));
